@@ -21,16 +21,23 @@ structure LibCfg where
   stringsCmpOutOfRange : Bool := false   -- repaired in /repo (fix: commit), see known_findings.json
   /-- a typed-nil pointer argument is dereferenced by `sp` -/
   stringsNilPtrPanics : Bool := false   -- repaired in /repo (fix: StringsInspector dereferenced a typed-nil pointer)
+  /-- strings.go: Set dereferences a nil `*string` / `*[]byte` value. -/
+  stringsNilSrcPanics : Bool := false   -- repaired in /repo (fix: StringsInspector.Set dereferenced a nil *string / *[]byte value)
   /-- stranymap.go:216-221: Capacity with a non-empty path recurses into Length. -/
   samapCapIsLen : Bool := false   -- repaired in /repo (fix: commit), see known_findings.json
+  /-- stranymap.go:223-249 (`indir1` / `indir2`), 60-66, 184-190, 203-206, 288-295: a nil `*map[string]any` /
+  `**map[string]any` on the way, and a typed-nil `*string` / `*[]byte` leaf or assigned value, are dereferenced.
+  Off: the panic test is skipped — a nil pointer to a map behaves like a nil map, a nil text pointer is left /
+  stored as it is. -/
+  samapNilPtrPanics : Bool := false   -- repaired in /repo (fix: StringAnyMapInspector dereferenced nil pointers)
   /-- static.go:851-879: Reset of *string / *[]byte assigns to the local variable. -/
   staticResetTextLost : Bool := false   -- repaired in /repo (fix: commit), see known_findings.json
   /-- static.go:716-879: indInt/indUint truncate floats: DeepEqual(1, 1.5) but not DeepEqual(1.5, 1). -/
-  staticDeqAsymmetric : Bool := true
+  staticDeqAsymmetric : Bool := false   -- repaired in /repo (fix: StaticInspector.DeepEqual of an integer and a float depended on the argument order)
   /-- static.go: indString ↔ indBytes recurse forever on a non-text operand. -/
   staticDeqDiverges : Bool := false   -- repaired in /repo (fix: commit), see known_findings.json
   /-- static.go: typed-nil pointers are dereferenced. -/
-  staticNilPtrPanics : Bool := true
+  staticNilPtrPanics : Bool := false   -- repaired in /repo (fix: StaticInspector dereferenced a typed-nil pointer)
 deriving Repr, Inhabited
 
 def LibCfg.repo : LibCfg := {}
@@ -41,7 +48,9 @@ def LibCfg.original : LibCfg where
   stringsEmptyUnequal := true
   stringsCmpOutOfRange := true
   stringsNilPtrPanics := true
+  stringsNilSrcPanics := true
   samapCapIsLen := true
+  samapNilPtrPanics := true
   staticResetTextLost := true
   staticDeqAsymmetric := true
   staticDeqDiverges := true
@@ -51,7 +60,9 @@ def LibCfg.fixed : LibCfg where
   stringsEmptyUnequal := false
   stringsCmpOutOfRange := false
   stringsNilPtrPanics := false
+  stringsNilSrcPanics := false
   samapCapIsLen := false
+  samapNilPtrPanics := false
   staticResetTextLost := false
   staticDeqAsymmetric := false
   staticDeqDiverges := false
@@ -152,7 +163,7 @@ def stringsSet (cfg : LibCfg) (isB : Bool) (f : Form) (v : Val) (p : List Seg) (
          if !inRangeIdx idx (seqElems v).length then .ok v else
          match setText isB src with
          | none => .ok v
-         | some none => .panic
+         | some none => if cfg.stringsNilSrcPanics then .panic else .ok v
          | some (some t) =>
            if t.isEmpty && cfg.stringsSetEmptyNoop then .ok v
            else
